@@ -338,12 +338,14 @@ package templ
 //@   assume entry: watchModeCache != nil
 //@   modifies failedDuring
 //@   ensures !held(watchStateMutex)
+//@   ensures implies(result1 == nil, failedDuring == old(failedDuring)) && implies(result1 != nil, failedDuring) && implies(old(failedDuring), failedDuring)
 
 //@ func cacheStrings [C14]
 //@   requires held(watchStateMutex)
 //@   assume entry: watchModeCache != nil
 //@   modifies failedDuring
 //@   ensures held(watchStateMutex)
+//@   ensures implies(result1 == nil, failedDuring == old(failedDuring)) && implies(result1 != nil, failedDuring) && implies(old(failedDuring), failedDuring)
 
 //@ func WriteWatchModeString [C14]
 //@   requires lineNum >= 1
